@@ -11,6 +11,7 @@ Ops (one per line, space separated; every structured argument is one space-free 
 * `schema <Name> <schema>`                — register the schema regenerated from the protobuf descriptors of /repo;
                                             pinned names are compared with the schemas the theorems are stated for
 * `enc <Name> <msg>`                      — `x<bytes of encode> <normal form>`; also checks `decode (encode m) = norm m`
+* `hvalid <height:x<root>|-> <height:x<root>|->` — header with proposed / empty part: `valid=… hash=p|e|- height=… root=…`
 * `certc parent round step voted votes`   — `FullBlockCert.Compress` + `BlockCert.ToBytes` of votes `off:upgrade:x<sig>;…`:
                                             bytes of the compressed certificate (and `expand (compress votes) = votes`)
 * `canon <Name> x<bytes>`                 — canonical re-encoding of a NON-canonical input (explicit defaults, over-long
@@ -270,6 +271,26 @@ def step (st : St) (line : String) : St × String :=
     match st.schemas.lookup name, parseSpec specTok, parseGoVals valsTok with
     | some s, some spec, some vals => (st, recAnswer s spec vals)
     | _, _, _ => (st, "bad-op")
+  | ["hvalid", p, e] =>
+    -- header with a proposed part `height:x<root>` / `-` and an empty part `height:x<root>` / `-`:
+    -- validity, the part the hash is taken over, what Height() and Root() return
+    let part (t : String) : Option (Option (Nat × Bytes)) :=
+      if t = "-" then some none else
+      match t.splitOn ":" with
+      | [h, r] => match parseNatTok h, parseHex r with
+        | some h, some r => some (some (h, r))
+        | _, _ => none
+      | _ => none
+    match part p, part e with
+    | some pp, some ee =>
+      let hm : HeaderM :=
+        ⟨pp.map fun (h, r) => ⟨[], h, 0, [], [], r, [], 0, [], none, [], [], none, 0, [], []⟩,
+         ee.map fun (h, r) => ⟨[], h, r, [], 0, [], 0⟩⟩
+      let hp := match hm.hashPart with | .proposed => "p" | .empty => "e" | .none => "-"
+      let hh := match hm.height with | some n => toString n | none => "-"
+      let rt := match hm.root with | some b => bytesToHex b | none => "-"
+      (st, "valid=" ++ (if hm.valid then "1" else "0") ++ " hash=" ++ hp ++ " height=" ++ hh ++ " root=" ++ rt)
+    | _, _ => (st, "bad-op")
   | ["certc", parent, r, stp, vh, votesTok] =>
     -- votes over one (round, step, parent, voted hash): `off:upgrade:x<sig>` joined by `;` (`-` = no vote)
     match parseHex parent, parseNatTok r, parseNatTok stp, parseHex vh with
